@@ -10,7 +10,7 @@ func VerifC24Outbound() {
 	R := uint16(1 + vChoose(2))
 	caps := NewDefaultServerCapabilities()
 	caps.MaximumClientWritesPending = int32(1 + vChoose(2)) // small outbound queue so that drops happen
-	s, _ := vNewServer(&Options{Capabilities: caps})
+	s, h := vNewServer(&Options{Capabilities: caps})
 	c := vConn()
 	cl := s.NewClient(c, "t1", "c1", false)
 	cl.ParseConnect("t1", packets.Packet{ProtocolVersion: 5, Connect: packets.ConnectParams{ClientIdentifier: "c1", Keepalive: 60}, Properties: packets.Properties{ReceiveMaximum: R, TopicAliasMaximum: tam}})
@@ -40,7 +40,16 @@ func VerifC24Outbound() {
 		}
 		if p.Topic == "" {
 			_, ok := bound[p.Alias]
-			vAssert("kf-alias-bound-by-a-packet-that-was-never-written", !p.HasAlias || ok || tam == 0)
+			// recorded class: the binding was made by a packet that was then dropped (queue full) or held back
+			heldBack := false
+			for _, ip := range cl.State.Inflight.GetAll(false) {
+				if ip.Expiry < 0 {
+					heldBack = true
+				}
+			}
+			if h.dropped > 0 || h.qosDropped > 0 || heldBack {
+				vAssert("kf-alias-bound-by-a-packet-that-was-never-written", !p.HasAlias || ok || tam == 0)
+			}
 			vAssert("empty-topic-only-with-alias-bound-earlier-on-this-connection", p.HasAlias && ok)
 		} else if p.HasAlias {
 			bound[p.Alias] = p.Topic
